@@ -17,6 +17,17 @@ struct LyingHost {
     inner: DefaultHost<MemAdviceProvider>,
     bad_path: bool,
     bad_node: bool,
+    /// answer requests for an index outside the tree with the data of (index mod 2^depth)
+    wrap_index: bool,
+}
+
+fn wrapped(depth: Felt, index: Felt) -> Felt {
+    let d = depth.as_int();
+    if d >= 64 {
+        index
+    } else {
+        Felt::new(index.as_int() % (1u64 << d))
+    }
 }
 
 fn corrupt(path: MerklePath) -> MerklePath {
@@ -32,6 +43,12 @@ fn corrupt(path: MerklePath) -> MerklePath {
 impl Host for LyingHost {
     fn get_advice<S: ProcessState>(&mut self, process: &S, extractor: AdviceExtractor) -> Result<HostResponse, ExecutionError> {
         let is_path = matches!(extractor, AdviceExtractor::GetMerklePath);
+        if is_path && self.wrap_index {
+            let depth = process.get_stack_item(4);
+            let index = wrapped(depth, process.get_stack_item(5));
+            let root = [process.get_stack_item(9), process.get_stack_item(8), process.get_stack_item(7), process.get_stack_item(6)];
+            return self.inner.advice_provider_mut().get_merkle_path(root, &depth, &index).map(HostResponse::MerklePath);
+        }
         let r = self.inner.get_advice(process, extractor)?;
         match r {
             HostResponse::MerklePath(p) if is_path && self.bad_path => Ok(HostResponse::MerklePath(corrupt(p))),
@@ -41,6 +58,25 @@ impl Host for LyingHost {
 
     fn set_advice<S: ProcessState>(&mut self, process: &S, injector: AdviceInjector) -> Result<HostResponse, ExecutionError> {
         let is_node = matches!(injector, AdviceInjector::MerkleNodeToStack);
+        if self.wrap_index && is_node {
+            let depth = process.get_stack_item(0);
+            let index = wrapped(depth, process.get_stack_item(1));
+            let root = [process.get_stack_item(5), process.get_stack_item(4), process.get_stack_item(3), process.get_stack_item(2)];
+            let p = self.inner.advice_provider_mut();
+            let node = p.get_tree_node(root, &depth, &index)?;
+            for i in (0..4).rev() {
+                p.push_stack(AdviceSource::Value(node[i]))?;
+            }
+            return Ok(HostResponse::None);
+        }
+        if self.wrap_index && matches!(injector, AdviceInjector::UpdateMerkleNode) {
+            let depth = process.get_stack_item(4);
+            let index = wrapped(depth, process.get_stack_item(5));
+            let root = [process.get_stack_item(9), process.get_stack_item(8), process.get_stack_item(7), process.get_stack_item(6)];
+            let new_node = [process.get_stack_item(13), process.get_stack_item(12), process.get_stack_item(11), process.get_stack_item(10)];
+            let (path, _) = self.inner.advice_provider_mut().update_merkle_node(root, &depth, &index, new_node)?;
+            return Ok(HostResponse::MerklePath(path));
+        }
         let r = self.inner.set_advice(process, injector)?;
         if is_node && self.bad_node {
             // the node value was pushed onto the advice stack: replace its first element
@@ -73,7 +109,13 @@ pub fn run_mtree(line: &str) -> String {
         let depth = tree.depth() as u64;
         // stack inputs are given bottom-first to `try_from_values`
         let mut st: Vec<u64> = Vec::new();
-        let claimed_index = if mode == "badindex" { (index + 1) % (1u64 << depth) } else { index };
+        let claimed_index = match mode {
+            "badindex" => (index + 1) % (1u64 << depth),
+            // an index outside the tree: index + k * 2^depth, answered by a host that reduces it
+            "wrapindex" => index + (1u64 << depth),
+            "wrapindex2" => index + 3 * (1u64 << depth),
+            _ => index,
+        };
         match op {
             "get" => {
                 st.extend(root.iter().map(|f| f.as_int()));
@@ -102,6 +144,7 @@ pub fn run_mtree(line: &str) -> String {
             inner: DefaultHost::new(MemAdviceProvider::from(adv)),
             bad_path: mode == "badpath",
             bad_node: mode == "badnode",
+            wrap_index: mode.starts_with("wrapindex"),
         };
         let opts = ExecutionOptions::new(Some(1 << 14), 64, false).unwrap();
         let mut process = Process::new(Kernel::default(), StackInputs::try_from_values(st).unwrap(), host, opts);
